@@ -372,6 +372,9 @@ pub fn tok_corpus(tier: Tier) -> Vec<(TokCfg, String)> {
         v.push((TokCfg::default(), s.to_string()));
         v.push((TokCfg { cdata: true, ..Default::default() }, s.to_string()));
     }
+    for s in crate::c15::keyword_prefix_corpus() {
+        v.push((TokCfg { cdata: true, ..Default::default() }, s));
+    }
     v
 }
 
